@@ -233,6 +233,11 @@ class World(WsWorld):
                     ok = False
                     self.run.probe("over-limit-frame-planned")
                     break
+                if not fin and not huge and ch.flag("control-frame-between-fragments", 0.2):
+                    # a ping or pong between two fragments (legal): the running length of the message is not its business
+                    chdr, cpl = self.frame_parts(ch.pick((9, 10), "ctl-op"), b"between", fin=True, rsv=0)
+                    self.script.append(("pay", chdr + cpl, {"msg": k, "frame": i, "ctl": True}))
+                    self.run.probe("control-frame-inside-fragmented-message")
             if not ok:
                 break
             self.expect.append((payload, binary))
